@@ -983,6 +983,8 @@ class RealWorld:
 
     def __enter__(self) -> "RealWorld":
         self._saved = (st.time, aps.time)
+        if isinstance(st.time, _FakeClock):
+            self.clock = st.time  # nested worlds (several workers) share the one substituted clock
         st.time = self.clock  # type: ignore[assignment]
         aps.time = self.clock  # type: ignore[assignment]
         return self
